@@ -332,6 +332,14 @@ func (cs *CodecSet) ieDesc(nt *types.Named) *IEDesc {
 		if sig.Recv() == nil {
 			if fd.Obj.Name() == "New"+name {
 				d.NewOK, d.NewBad = summarizeNew(fd.Decl, tinfo, d)
+				if !d.NewOK {
+					// not the generator's `x := &X{}; x.SetIei(iei); return x`: decide the same facts by evaluation
+					if ok, why := cs.semNew(fd.Obj, d); ok {
+						d.NewOK, d.NewBad = true, ""
+					} else if why != "" {
+						d.NewBad += " (by evaluation: " + why + ")"
+					}
+				}
 			}
 			continue
 		}
@@ -411,7 +419,36 @@ func summarizeSetLen(fd *ast.FuncDecl, info *types.Info, recv string) (stores, m
 		return false, false, "unexpected signature"
 	}
 	p := fd.Type.Params.List[0].Names[0].Name
-	for i, s := range fd.Body.List {
+	// a parallel assignment `a.Len, a.Buffer = len, make([]uint8, len)` is the two assignments in
+	// order, provided no right-hand side reads a field assigned by the same statement (the right-hand
+	// sides are evaluated first)
+	var body []ast.Stmt
+	for _, s := range fd.Body.List {
+		as, ok := s.(*ast.AssignStmt)
+		if ok && as.Tok == token.ASSIGN && len(as.Lhs) == len(as.Rhs) && len(as.Lhs) > 1 {
+			indep := true
+			for _, r := range as.Rhs {
+				ast.Inspect(r, func(n ast.Node) bool {
+					if se, isSel := n.(*ast.SelectorExpr); isSel {
+						for _, l := range as.Lhs {
+							if ls, isL := ast.Unparen(l).(*ast.SelectorExpr); isL && types.ExprString(ls) == types.ExprString(se) {
+								indep = false
+							}
+						}
+					}
+					return true
+				})
+			}
+			if indep {
+				for k := range as.Lhs {
+					body = append(body, &ast.AssignStmt{Lhs: []ast.Expr{as.Lhs[k]}, Tok: token.ASSIGN, TokPos: as.TokPos, Rhs: []ast.Expr{as.Rhs[k]}})
+				}
+				continue
+			}
+		}
+		body = append(body, s)
+	}
+	for i, s := range body {
 		as, ok := s.(*ast.AssignStmt)
 		if !ok || len(as.Lhs) != 1 || len(as.Rhs) != 1 || as.Tok != token.ASSIGN {
 			return stores, makes, "unexpected statement in SetLen"
@@ -448,6 +485,63 @@ func summarizeSetLen(fd *ast.FuncDecl, info *types.Info, recv string) (stores, m
 		}
 	}
 	return stores, makes, ""
+}
+
+// semNew decides the constructor facts on the SSA form (E2): NewX(iei) returns a pointer to an
+// object allocated by this call, whose Iei cell (if the element has one) is the parameter and
+// whose other integer cells are zero; it writes nothing else.
+func (cs *CodecSet) semNew(f *types.Func, d *IEDesc) (bool, string) {
+	fn := cs.w.SSAFunc(f)
+	if fn == nil || len(fn.Params) > 1 {
+		return false, "unexpected signature"
+	}
+	it := NewInterp(cs.w)
+	it.Fuel = 20000
+	st := it.NewState()
+	var args []Value
+	var iei BV
+	if len(fn.Params) == 1 {
+		wd, _, ok := typeWidth(fn.Params[0].Type())
+		if !ok {
+			return false, "parameter is not an integer"
+		}
+		iei = it.SrcBV("iei", wd)
+		args = append(args, iei)
+	}
+	res := it.Call(fn, args, st, 0)
+	if len(it.Unsup) > 0 {
+		return false, strings.Join(it.Unsup, "; ")
+	}
+	p, ok := res.(Ptr)
+	if !ok || p.Path != "" || !strings.HasPrefix(p.Obj.Name, "alloc") {
+		return false, "the result is not a pointer to an object allocated by the constructor"
+	}
+	for wk := range it.Writes {
+		if !strings.HasPrefix(wk, p.Obj.Name) {
+			return false, "the constructor writes " + wk
+		}
+	}
+	for path, v := range st.mem[p.Obj] {
+		bv, isBV := v.(BV)
+		if !isBV {
+			continue
+		}
+		if path == ".Iei" && d.HasIei {
+			if same, _ := sameBV(it, bv, iei); !same {
+				return false, "the identifier stored is not the constructor's parameter"
+			}
+			continue
+		}
+		if c, isC := bv.IsConst(); !isC || c != 0 {
+			return false, "field " + strings.TrimPrefix(path, ".") + " is not left zero"
+		}
+	}
+	if d.HasIei {
+		if _, has := st.mem[p.Obj][".Iei"]; !has {
+			return false, "constructor does not store the identifier"
+		}
+	}
+	return true, ""
 }
 
 // summarizeNew: x = &X{}; [x.SetIei(iei)]; return x
